@@ -98,6 +98,7 @@ class Hist:
         self.cfg = {}
         self.emit("new %s" % hid)
         self.choose_cfg(first=True)
+        self.iv0 = self.cfg["iv"]
         self.emit("open")
         self.opened = True
         if self.cfg["iv"] is None and rng.random() < 0.08:
@@ -105,6 +106,7 @@ class Hist:
             iv = rng.choice([1, 3, 7])
             self.emit("setiv %d" % iv)
             self.iv_pending = iv
+            self.iv0 = iv
 
     # ----- helpers
     def emit(self, s):
@@ -605,25 +607,30 @@ class Hist:
         """a new tree object on the existing store that is not loaded: the first version is replayed from
         the empty tree and committed again (identical: succeeds without effect; different: refused)"""
         r = self.r
-        if not self.versions or self.pruned_ever or self.first() != 1 or 1 not in self.wlog or self.cfg.get("iv") not in (None, 1):
+        f = self.first()
+        if not self.versions or self.pruned_ever or f not in self.wlog or f != (self.iv0 or 1):
             return
         if self.dirty:
             self.rollback()
         self.emit("close")
-        self.emit("cfg db=%s cache=%d fast=%d thr=%d iv=-" % (self.cfg["db"], r.choice(self.p.caches), int(r.choice(self.p.fasts)), r.choice(self.p.thrs)))
-        self.iv_pending = None
-        self.iv_opt = 0
+        self.emit("cfg db=%s cache=%d fast=%d thr=%d iv=%s" % (self.cfg["db"], r.choice(self.p.caches), int(r.choice(self.p.fasts)), r.choice(self.p.thrs),
+                                                              "-" if self.iv0 is None else str(self.iv0)))
+        self.cfg["iv"] = self.iv0
+        self.iv_pending = self.iv0
+        self.iv_opt = self.iv0 or 0
         self.emit("opennl")
-        for op in self.wlog[1]:
+        for op in self.wlog[f]:
             if op[0] == "rm":
                 self.emit("rm %s" % enc(op[1]))
             else:
                 self.emit("set %s %s" % (enc(op[1]), enc(op[2])))
         if r.random() < 0.6:
-            self.emit("save")                      # identical: version 1 again, nothing changes
+            self.emit("save")                      # identical: the first version again, nothing changes
+            self.emit("wver")
         else:
             self.emit("set %s %s" % (enc(b"zz-differs"), enc(b"1")))
             self.emit("save")                      # different: refused
+            self.emit("wver")                      # ... and the initial version stays pending
             self.emit("rollback")
         # (no reads through this handle before it is loaded: the fast-index upgrade check runs in Load)
         self.emit("avail")
@@ -1368,6 +1375,7 @@ def gen_legacy(seed, n, start_id=0):
         h.r, h.p, h.lines = r, prof, []
         h.versions, h.working, h.base, h.dirty = {}, {}, 0, False
         h.iv_pending, h.iv_opt, h.wlog, h.curlog, h.pruned_ever = None, 0, {}, [], False
+        h.iv0 = None
         h.keys = r.sample(KEYS, r.randint(2, 7))
         h.cfg = {"db": "mem"}
         h.opened = True
